@@ -215,6 +215,25 @@ CHECKS = {
         "process runs bind the in-process verdict for one signal time per outcome class.",
         "DESIGN.md section 2.1 and section 4, C13",
     ),
+    "C14": (
+        "smallscope",
+        "bounded-exhaustive enumeration of plugin sets, constraint graphs, required flags and "
+        "configuration mappings through the real section-plugin loading",
+        "Plugin sets of 0-3 named plugins plus one absent name x every assignment of before / "
+        "after relations among them (acyclic ones; quick: all for <= 2 plugins, <= 2 relations "
+        "for 3; thorough: all 3^9) x required flags x digest results x every configuration "
+        "mapping over the plugins' sections, an unknown section and logging; the seam is the "
+        "entry-point listing only (fake entry points, bound by cases through a real dist-info "
+        "directory), SectionPlugin.load / load_section_plugins / load_configuration are real. "
+        "Oracle: unknown section -> ConfigurationError before any digest; missing required "
+        "section -> ConfigurationError; otherwise each present section digested exactly once "
+        "with the identical object, results kept, call order satisfies every constraint "
+        "between installed plugins, constraints naming the absent plugin change nothing.",
+        "Trusted: fake entry points behave like real ones (a disagreement between the two "
+        "routes is a harness error); `before` read as in SectionPlugin.load's documentation; "
+        "cyclic constraint graphs are outside the property.",
+        "DESIGN.md section 4, C14",
+    ),
     "C16": (
         "smallscope",
         "explicit-state exploration of operation histories over every decorator stack against "
@@ -249,6 +268,24 @@ CHECKS = {
         "the legacy `__type__: dotted.name` mechanism instantiates arbitrary callables by "
         "design and is outside the rejection clause.",
         "DESIGN.md section 4, C18",
+    ),
+    "C19": (
+        "smallscope",
+        "bounded-exhaustive enumeration of configuration trees against an independent "
+        "recursive evaluator",
+        "All trees with <= 5 (quick) / 6 (thorough) nodes built from mappings, lists and "
+        "scalars with __type__ marks on any subset of the mappings, factories drawn from a "
+        "recording class, function, nested attribute, module name, raising function, "
+        "unresolvable names and a non-string, with and without __args__, generated in shortlex "
+        "order and translated by the real Translator. Oracle: result equals an independent "
+        "recursive evaluation, plain data unchanged, every marked mapping's factory called "
+        "exactly once with exact arguments, children before parents and later list items "
+        "before earlier ones; the first failing element is reported with where equal to the "
+        "independently built path of keys and indices, and nothing above it was constructed.",
+        "Trusted: the reference evaluator; mapping keys are simple identifiers; no order is "
+        "demanded between the items of one mapping; six-node trees use a reduced factory "
+        "alphabet.",
+        "DESIGN.md section 4, C19",
     ),
     "C17": (
         "smallscope",
